@@ -210,6 +210,12 @@ def window(rec, pos, sigma):
         return c + 3.0 * s, c + 103.0 * s, 5
     if w == "tail_in_last_bin":
         return c - 103.0 * s, c - 3.0 * s, 5
+    if w == "centre_on_boundary":
+        return c - 32.0 * s, c + 32.0 * s, 8
+    if w == "centre_near_boundary":
+        return c - 19.0 * s, c + 23.0 * s, 7
+    if w == "wing_over_boundary":
+        return c - 42.0 * s, c + 58.0 * s, 4
     return c - 30.0, c + 31.0, 3
 
 
